@@ -35,3 +35,408 @@ Proof. exists (firstn 2 w_c14_ops), (skipn 2 w_c14_ops), 0. vm_compute. split; r
 Lemma no_reply_aborts_refuted :
   exists ops l, snd (fstep (frun f_init ops) (FRevocation l [] [(0, AWrongKey)])) = OPanic (SClient Site_store_misbehaving_proof_unwrap).
 Proof. exists w_c14_ops, 2. vm_compute. reflexivity. Qed.
+
+(* ====================================================================== *)
+(* generic helpers                                                        *)
+(* ====================================================================== *)
+Ltac dmatch :=
+  repeat match goal with
+         | |- context [match ?x with _ => _ end] => destruct x eqn:?
+         | |- context [if ?x then _ else _] => destruct x eqn:?
+         end.
+
+Lemma aget_aset_same {V} (m : amap V) t v : aget (aset m t v) t = Some v.
+Proof. rewrite aget_aset, N.eqb_refl. reflexivity. Qed.
+Lemma aget_aset_other {V} (m : amap V) t v k : k <> t -> aget (aset m t v) k = aget m k.
+Proof. intros H. rewrite aget_aset. apply N.eqb_neq in H. rewrite H. reflexivity. Qed.
+
+Lemma remove_one_In x y l : In y (remove_one x l) -> In y l.
+Proof.
+  induction l as [|z l IH]; cbn; [tauto|]. destruct (N.eqb z x); [tauto|]. cbn. intros [->|H]; [tauto|]. right. apply IH, H.
+Qed.
+Lemma remove_one_NoDup x l : NoDup l -> NoDup (remove_one x l) /\ ~ In x (remove_one x l).
+Proof.
+  induction 1 as [|z l Hz Hl IH]; cbn; [split; [constructor|tauto]|].
+  destruct (N.eqb z x) eqn:E.
+  - apply N.eqb_eq in E. subst. split; assumption.
+  - apply N.eqb_neq in E. destruct IH as [A B]. split.
+    + constructor; [|exact A]. intros H. apply Hz. eapply remove_one_In, H.
+    + intros [H|H]; [congruence|tauto].
+Qed.
+
+(* the status of every retrier of the manager *)
+Definition rstat (s : fstate) (t : N) : option rstatus := option_map r_status (aget (f_mgr s) t).
+
+(* ====================================================================== *)
+(* C13 single_retrier: one retry loop per tower                           *)
+(* ====================================================================== *)
+Definition TaskInv (s : fstate) : Prop :=
+  NoDup (f_tasks s) /\ forall t, In t (f_tasks s) -> rstat s t = Some RRunning.
+
+Lemma TaskInv_same s s' : f_tasks s' = f_tasks s -> (forall t, rstat s' t = rstat s t) -> TaskInv s -> TaskInv s'.
+Proof. intros E1 E2 [A B]. split; [rewrite E1; exact A|]. intros t Ht. rewrite E2. apply B. rewrite <- E1. exact Ht. Qed.
+
+(* ---- operations that do not touch the manager's retriers nor the tasks ---- *)
+Lemma f_register_mgr s t a rp : f_tasks (fst (f_register s t a rp)) = f_tasks s /\ f_mgr (fst (f_register s t a rp)) = f_mgr s.
+Proof. unfold f_register. dmatch; cbn; split; reflexivity. Qed.
+
+Lemma send_to_retrier_mgr s t l : f_tasks (send_to_retrier s t l) = f_tasks s /\ f_mgr (send_to_retrier s t l) = f_mgr s.
+Proof. unfold send_to_retrier. dmatch; cbn; split; reflexivity. Qed.
+
+Lemma rev_tower_mgr s l t st rp : f_tasks (fst (rev_tower s l t st rp)) = f_tasks s /\ f_mgr (fst (rev_tower s l t st rp)) = f_mgr s.
+Proof.
+  unfold rev_tower. dmatch; cbn [fst]; try (split; reflexivity);
+    try (match goal with |- context [send_to_retrier ?x ?y ?z] => destruct (send_to_retrier_mgr x y z) as [-> ->] end; split; reflexivity).
+Qed.
+
+Lemma rev_loop_mgr l replies snap : forall s, f_tasks (fst (rev_loop s l snap replies)) = f_tasks s /\ f_mgr (fst (rev_loop s l snap replies)) = f_mgr s.
+Proof.
+  induction snap as [|[t st] snap IH]; intros s; cbn; [split; reflexivity|].
+  destruct (rev_tower s l t st (reply_for replies t)) as [s1 o] eqn:E.
+  pose proof (rev_tower_mgr s l t st (reply_for replies t)) as H. rewrite E in H. cbn in H. destruct H as [H1 H2].
+  destruct o; cbn; [split; assumption|]. destruct (IH s1) as [A B]. split; congruence.
+Qed.
+
+Lemma f_revocation_mgr s l order replies :
+  f_tasks (fst (f_revocation s l order replies)) = f_tasks s /\ f_mgr (fst (f_revocation s l order replies)) = f_mgr s.
+Proof.
+  unfold f_revocation. destruct (poisoned s); [split; reflexivity|].
+  match goal with |- context [rev_loop s l ?sn replies] => pose proof (rev_loop_mgr l replies sn s) as H; destruct (rev_loop s l sn replies) as [s1 o] end.
+  cbn in H. destruct o; cbn; exact H.
+Qed.
+
+Lemma f_manual_retry_mgr s t : f_tasks (fst (f_manual_retry s t)) = f_tasks s /\ f_mgr (fst (f_manual_retry s t)) = f_mgr s.
+Proof. unfold f_manual_retry. dmatch; cbn; split; reflexivity. Qed.
+
+Lemma f_abandon_mgr s t : f_tasks (fst (f_abandon s t)) = f_tasks s /\ f_mgr (fst (f_abandon s t)) = f_mgr s.
+Proof. unfold f_abandon. dmatch; cbn; split; reflexivity. Qed.
+
+(* ---- the manager ---- *)
+Lemma rstat_put s t r k : rstat (put_retrier s t r) k = if N.eqb k t then Some (r_status r) else rstat s k.
+Proof. unfold rstat, put_retrier, set_mgr. cbn [f_mgr]. rewrite aget_aset. destruct (N.eqb k t); reflexivity. Qed.
+
+Lemma rstat_set_c s c k : rstat (set_c s c) k = rstat s k.  Proof. reflexivity. Qed.
+Lemma rstat_wr_c s c k : rstat (wr_c s c) k = rstat s k.  Proof. reflexivity. Qed.
+
+Lemma TaskInv_put_not_task s t r :
+  TaskInv s -> ~ In t (f_tasks s) -> TaskInv (put_retrier s t r).
+Proof.
+  intros [A B] Hn. split; [exact A|]. intros k Hk. cbn in Hk. rewrite rstat_put.
+  destruct (N.eqb k t) eqn:E; [apply N.eqb_eq in E; subst; contradiction|]. apply B, Hk.
+Qed.
+
+Lemma TaskInv_put_same_status s t r r0 :
+  TaskInv s -> aget (f_mgr s) t = Some r0 -> r_status r = r_status r0 -> TaskInv (put_retrier s t r).
+Proof.
+  intros [A B] H0 Hs. split; [exact A|]. intros k Hk. cbn in Hk. rewrite rstat_put.
+  destruct (N.eqb k t) eqn:E; [|apply B, Hk]. apply N.eqb_eq in E. subst. rewrite Hs. specialize (B t Hk).
+  unfold rstat in B. rewrite H0 in B. exact B.
+Qed.
+
+Lemma not_task_if_not_running s t r :
+  TaskInv s -> aget (f_mgr s) t = Some r -> r_status r <> RRunning -> ~ In t (f_tasks s).
+Proof. intros [_ B] H Hn Hin. specialize (B t Hin). unfold rstat in B. rewrite H in B. cbn in B. congruence. Qed.
+
+Lemma not_task_if_absent s t : TaskInv s -> aget (f_mgr s) t = None -> ~ In t (f_tasks s).
+Proof. intros [_ B] H Hin. specialize (B t Hin). unfold rstat in B. rewrite H in B. discriminate. Qed.
+
+Lemma TaskInv_wake s t r : TaskInv s -> aget (f_mgr s) t = Some r -> r_status r = RIdle -> TaskInv (wake s t r).
+Proof.
+  intros HT H Hi. unfold wake. apply TaskInv_put_not_task.
+  - apply (TaskInv_same s); [reflexivity|reflexivity|exact HT].
+  - cbn. eapply not_task_if_not_running; eauto. congruence.
+Qed.
+
+Lemma TaskInv_add_pending s t locs : TaskInv s -> TaskInv (add_pending_appointments s t locs).
+Proof.
+  intros HT. unfold add_pending_appointments. destruct (aget (f_mgr s) t) as [r|] eqn:E.
+  - eapply TaskInv_put_same_status; eauto.
+  - apply TaskInv_put_not_task; [exact HT|]. apply not_task_if_absent; assumption.
+Qed.
+
+Lemma TaskInv_start s t r s' :
+  TaskInv s -> aget (f_mgr s) t = Some r -> r_status r = RStopped -> retrier_start s t r = (s', None) -> TaskInv s'.
+Proof.
+  intros HT H Hs. unfold retrier_start. destruct (aget (c_towers (f_c s)) t) as [su|]; [|discriminate].
+  intros E. inversion E. subst s'. clear E.
+  assert (Hn : ~ In t (f_tasks s)) by (eapply not_task_if_not_running; eauto; congruence).
+  destruct HT as [A B]. split.
+  - cbn. apply NoDup_app_iff. split; [exact A|]. split; [constructor; [tauto|constructor]|].
+    intros x Hx [<-|[]]. contradiction.
+  - intros k Hk. cbn in Hk. unfold rstat. cbn [f_mgr set_tasks put_retrier set_mgr]. rewrite aget_aset.
+    destruct (N.eqb k t) eqn:Ek; [reflexivity|]. apply in_app_or in Hk. destruct Hk as [Hk|[<-|[]]].
+    + apply (B k Hk).
+    + rewrite N.eqb_refl in Ek. discriminate.
+Qed.
+
+Lemma retrier_start_abort_tasks s t r s' site : retrier_start s t r = (s', Some site) -> f_tasks s' = f_tasks s /\ f_mgr s' = f_mgr s.
+Proof. unfold retrier_start. destruct (aget (c_towers (f_c s)) t); [discriminate|]. intros E. inversion E. split; reflexivity. Qed.
+
+Lemma TaskInv_sweep elapsed : forall keys s started woke, TaskInv s -> TaskInv (fst (fst (fst (sweep s keys elapsed started woke)))).
+Proof.
+  induction keys as [|t keys IH]; intros s started woke HT; cbn; [exact HT|].
+  destruct (aget (f_mgr s) t) as [r|] eqn:E; [|apply IH, HT].
+  destruct (should_start r) eqn:Ess.
+  - destruct (retrier_start s t r) as [s1 [site|]] eqn:Es.
+    + cbn. destruct (retrier_start_abort_tasks _ _ _ _ _ Es) as [E1 E2].
+      apply (TaskInv_same s); [exact E1| |exact HT]. intros k. unfold rstat. rewrite E2. reflexivity.
+    + apply IH. eapply TaskInv_start; eauto. unfold should_start in Ess. apply andb_true_iff in Ess.
+      destruct Ess as [Ess _]. destruct (r_status r); try discriminate. reflexivity.
+  - destruct (is_idle (r_status r) && memN t elapsed) eqn:Ei; [|apply IH, HT].
+    apply IH. apply TaskInv_wake; [exact HT|exact E|]. apply andb_true_iff in Ei. destruct Ei as [Ei _].
+    destruct (r_status r); try discriminate. reflexivity.
+Qed.
+
+Lemma aget_filter_keep {V} (p : N * V -> bool) (m : amap V) t v :
+  aget m t = Some v -> p (t, v) = true -> aget (filter p m) t = Some v.
+Proof.
+  induction m as [|[k w] m IH]; cbn; [discriminate|]. intros H Hp.
+  destruct (N.eqb t k) eqn:E.
+  - apply N.eqb_eq in E. subst. inversion H. subst. rewrite Hp. cbn. rewrite N.eqb_refl. reflexivity.
+  - destruct (p (k, w)); [cbn; rewrite E|]; apply IH; assumption.
+Qed.
+
+Lemma aget_filter_Some {V} (p : N * V -> bool) (m : amap V) t v : aget (filter p m) t = Some v -> In (t, v) m /\ p (t, v) = true.
+Proof.
+  induction m as [|[k w] m IH]; cbn; [discriminate|]. destruct (p (k, w)) eqn:Ep.
+  - cbn. destruct (N.eqb t k) eqn:E.
+    + apply N.eqb_eq in E. subst. intros H. inversion H. subst. split; [left; reflexivity|exact Ep].
+    + intros H. destruct (IH H). split; [right|]; assumption.
+  - intros H. destruct (IH H). split; [right|]; assumption.
+Qed.
+
+Lemma TaskInv_retain s : TaskInv s -> TaskInv (retain_state s).
+Proof.
+  intros [A B]. split; [exact A|]. intros k Hk. cbn in Hk. specialize (B k Hk). unfold rstat in *. cbn.
+  destruct (aget (f_mgr s) k) as [r|] eqn:E; [|discriminate]. cbn in B. inversion B as [Br].
+  erewrite aget_filter_keep; [cbn; rewrite Br; reflexivity|exact E|].
+  unfold keep_retrier. cbn. rewrite Br. cbn. rewrite orb_true_r. reflexivity.
+Qed.
+
+Lemma TaskInv_mgr_sweep s elapsed : TaskInv s -> TaskInv (fst (mgr_sweep s elapsed)).
+Proof.
+  intros HT. unfold mgr_sweep.
+  match goal with |- context [if ?b then _ else _] => destruct b end; [exact HT|]. cbv zeta.
+  pose proof (TaskInv_retain s HT) as HT1.
+  match goal with |- context [if ?b then _ else _] => destruct b end; [exact HT1|].
+  pose proof (TaskInv_sweep elapsed (map fst (f_mgr (retain_state s))) (retain_state s) [] [] HT1) as H.
+  destruct (sweep (retain_state s) (map fst (f_mgr (retain_state s))) elapsed [] []) as [[[s2 st] wk] [site|]]; exact H.
+Qed.
+
+Lemma TaskInv_mgr_receive s t data : TaskInv s -> TaskInv (fst (mgr_receive s t data)).
+Proof.
+  intros HT. unfold mgr_receive.
+  match goal with |- context [if ?b then _ else _] => destruct b end; [exact HT|].
+  match goal with |- context [if ?b then _ else _] => destruct b end; [exact HT|].
+  destruct (aget (f_mgr s) t) as [r|] eqn:E.
+  - destruct (is_idle (r_status r)) eqn:Ei.
+    + destruct (rdata_is_none data); cbn [fst]; [|exact HT].
+      apply TaskInv_wake; [exact HT|exact E|]. destruct (r_status r); try discriminate. reflexivity.
+    + cbn [fst]. apply TaskInv_add_pending. exact HT.
+  - cbn [fst]. apply TaskInv_add_pending. exact HT.
+Qed.
+
+Lemma TaskInv_manager_tick s elapsed : TaskInv s -> TaskInv (fst (f_manager_tick s elapsed)).
+Proof.
+  intros HT. unfold f_manager_tick. destruct (f_mgr_dead s); [exact HT|].
+  destruct (f_chan s) as [|[t data] rest] eqn:Ec.
+  - apply TaskInv_mgr_sweep, HT.
+  - apply TaskInv_mgr_receive. exact HT.
+Qed.
+
+(* ---- the retry task ---- *)
+Lemma retrier_drop_rstat s t l k : rstat (retrier_drop s t l) k = rstat s k.
+Proof.
+  unfold retrier_drop. destruct (aget (f_mgr s) t) as [r|] eqn:E; [|reflexivity].
+  rewrite rstat_put. destruct (N.eqb k t) eqn:Ek; [|reflexivity]. apply N.eqb_eq in Ek. subst. unfold rstat. rewrite E. reflexivity.
+Qed.
+Lemma retrier_drop_tasks s t l : f_tasks (retrier_drop s t l) = f_tasks s.
+Proof. unfold retrier_drop. destruct (aget (f_mgr s) t); reflexivity. Qed.
+
+Definition same_tasks (s s' : fstate) : Prop := f_tasks s' = f_tasks s /\ forall k, rstat s' k = rstat s k.
+Lemma same_tasks_refl s : same_tasks s s.  Proof. split; reflexivity. Qed.
+Lemma same_tasks_trans a b c : same_tasks a b -> same_tasks b c -> same_tasks a c.
+Proof. intros [A1 A2] [B1 B2]. split; [congruence|]. intros k. rewrite B2. apply A2. Qed.
+Lemma same_tasks_drop s t l : same_tasks s (retrier_drop s t l).
+Proof. split; [apply retrier_drop_tasks|apply retrier_drop_rstat]. Qed.
+
+Lemma st_drop a s t l : same_tasks a s -> same_tasks a (retrier_drop s t l).
+Proof. intros H. eapply same_tasks_trans; [exact H|apply same_tasks_drop]. Qed.
+Lemma st_wr a s c : same_tasks a s -> same_tasks a (wr_c s c).  Proof. intros H. exact H. Qed.
+Lemma st_setc a s c : same_tasks a s -> same_tasks a (set_c s c).  Proof. intros H. exact H. Qed.
+Lemma st_log a s r : same_tasks a s -> same_tasks a (log_req s r).  Proof. intros H. exact H. Qed.
+Ltac st := repeat first [ apply same_tasks_refl | apply st_wr | apply st_setc | apply st_log | apply st_drop ].
+
+Lemma run_for_same' t : forall locs a s adds, same_tasks a s -> same_tasks a (fst (fst (run_for s t locs adds))).
+Proof.
+  induction locs as [|l locs IH]; intros a s adds Ha; cbn [run_for]; [exact Ha|].
+  destruct (poisoned s); [exact Ha|].
+  destruct (dbm_load_appointment (c_db (f_c s)) l) as [body|]; [|exact Ha].
+  destruct (next_reply adds) as [rp adds'].
+  destruct rp; cbn [fst]; try exact Ha.
+  - destruct (wt_add_appointment_receipt _ _ _ _ _ _ _) as [c2 r2].
+    destruct (lift_site r2); cbn [fst]; [apply st_wr, st_drop, st_log, Ha|].
+    destruct (wt_remove_pending_appointment c2 t l) as [c3 r3].
+    destruct (lift_site r3); cbn [fst]; [apply st_wr, st_wr, st_drop, st_log, Ha|].
+    apply IH. apply st_wr, st_wr, st_drop, st_log, Ha.
+  - destruct (wt_add_invalid_appointment _ _ _ _ _) as [c2 r2].
+    destruct (lift_site r2); cbn [fst]; [apply st_wr, st_drop, st_log, Ha|].
+    destruct (wt_remove_pending_appointment c2 t l) as [c3 r3].
+    destruct (lift_site r3); cbn [fst]; [apply st_wr, st_wr, st_drop, st_log, Ha|].
+    apply IH. apply st_wr, st_wr, st_drop, st_log, Ha.
+Qed.
+Lemma run_for_same t locs s adds : same_tasks s (fst (fst (run_for s t locs adds))).
+Proof. apply run_for_same', same_tasks_refl. Qed.
+
+Lemma run_while_same t hint : forall fuel s adds, same_tasks s (fst (run_while fuel s t hint adds)).
+Proof.
+  induction fuel as [|f IH]; intros s adds; cbn [run_while]; [apply same_tasks_refl|].
+  destruct (retrier_pending s t) as [|x p]; [apply same_tasks_refl|].
+  pose proof (run_for_same t (reorder hint (x :: p)) s adds) as H.
+  destruct (run_for s t (reorder hint (x :: p)) adds) as [[s1 adds1] [r|]]; cbn [fst] in *; [exact H|].
+  eapply same_tasks_trans; [exact H|apply IH].
+Qed.
+
+Lemma run_attempt_same s t a : same_tasks s (fst (run_attempt s t a)).
+Proof.
+  unfold run_attempt. destruct (poisoned s); [apply same_tasks_refl|].
+  destruct (aget (c_towers (f_c s)) t) as [su|]; [|apply same_tasks_refl].
+  destruct (is_subscription_error (su_status su)); [|apply run_while_same].
+  destruct (at_reg a); try (split; reflexivity).
+  destruct (negb sig_ok); [split; reflexivity|].
+  destruct (wt_add_update_tower _ _ _ _ _ _ _) as [c' r]. destruct r; try (split; reflexivity).
+  eapply same_tasks_trans; [|apply run_while_same]. split; reflexivity.
+Qed.
+
+Lemma TaskInv_same_tasks s s' : same_tasks s s' -> TaskInv s -> TaskInv s'.
+Proof. intros [A B]. apply TaskInv_same; assumption. Qed.
+
+Lemma rstat_retrier_set_status s t st k :
+  rstat (retrier_set_status s t st) k = if N.eqb k t then option_map (fun _ => st) (rstat s t) else rstat s k.
+Proof.
+  unfold retrier_set_status. destruct (aget (f_mgr s) t) as [r|] eqn:E.
+  - rewrite rstat_put. destruct (N.eqb k t); [|reflexivity]. unfold rstat. rewrite E. reflexivity.
+  - destruct (N.eqb k t) eqn:Ek; [|reflexivity]. apply N.eqb_eq in Ek. subst. unfold rstat. rewrite E. reflexivity.
+Qed.
+Lemma rstat_retrier_clear s t k : rstat (retrier_clear s t) k = rstat s k.
+Proof.
+  unfold retrier_clear. destruct (aget (f_mgr s) t) as [r|] eqn:E; [|reflexivity].
+  rewrite rstat_put. destruct (N.eqb k t) eqn:Ek; [|reflexivity]. apply N.eqb_eq in Ek. subst. unfold rstat. rewrite E. reflexivity.
+Qed.
+
+Lemma retrier_set_status_tasks s t st : f_tasks (retrier_set_status s t st) = f_tasks s.
+Proof. unfold retrier_set_status. destruct (aget (f_mgr s) t); reflexivity. Qed.
+Lemma retrier_clear_tasks s t : f_tasks (retrier_clear s t) = f_tasks s.
+Proof. unfold retrier_clear. destruct (aget (f_mgr s) t); reflexivity. Qed.
+
+(* ending the task of t: whatever the new status of t's retrier *)
+Lemma TaskInv_end_task s s' t :
+  TaskInv s -> f_tasks s' = f_tasks s -> (forall k, k <> t -> rstat s' k = rstat s k) -> TaskInv (end_task s' t).
+Proof.
+  intros [A B] E1 E2. destruct (remove_one_NoDup t (f_tasks s) A) as [N1 N2]. split.
+  - cbn. rewrite E1. exact N1.
+  - intros k Hk. cbn in Hk. rewrite E1 in Hk.
+    assert (k <> t) by (intros ->; contradiction).
+    change (rstat (end_task s' t) k) with (rstat s' k). rewrite E2 by assumption. apply B. eapply remove_one_In, Hk.
+Qed.
+
+Lemma TaskInv_task_step s t r more : TaskInv s -> TaskInv (fst (task_step s t r more)).
+Proof.
+  intros HT. unfold task_step. destruct r as [|e|site|].
+  - cbn [fst]. apply (TaskInv_end_task s); [exact HT|rewrite retrier_set_status_tasks; reflexivity|].
+    intros k Hk. rewrite rstat_retrier_set_status. apply N.eqb_neq in Hk. rewrite Hk. reflexivity.
+  - destruct (negb (is_permanent e) && more); [exact HT|].
+    set (s1 := if is_permanent e then retrier_set_status s t RFailed else s).
+    assert (H1 : f_tasks s1 = f_tasks s /\ forall k, k <> t -> rstat s1 k = rstat s k).
+    { unfold s1. destruct (is_permanent e); [|split; reflexivity]. split.
+      - apply retrier_set_status_tasks.
+      - intros k Hk. rewrite rstat_retrier_set_status. apply N.eqb_neq in Hk. rewrite Hk. reflexivity. }
+    destruct H1 as [H1 H2].
+    destruct e as [[|]| |l|]; cbn [fst].
+    + apply (TaskInv_end_task s); [exact HT|exact H1|exact H2].
+    + apply (TaskInv_end_task s); [exact HT| |].
+      * rewrite retrier_clear_tasks, retrier_set_status_tasks. exact H1.
+      * intros k Hk. rewrite rstat_retrier_clear, rstat_retrier_set_status. apply N.eqb_neq in Hk. rewrite Hk.
+        apply N.eqb_neq in Hk. apply (H2 k Hk).
+    + apply (TaskInv_end_task s); [exact HT| |].
+      * rewrite retrier_clear_tasks, retrier_set_status_tasks. exact H1.
+      * intros k Hk. rewrite rstat_retrier_clear, rstat_retrier_set_status. apply N.eqb_neq in Hk. rewrite Hk.
+        apply N.eqb_neq in Hk. apply (H2 k Hk).
+    + destruct (wt_flag_misbehaving_tower _ _ _ _ _ _ _) as [c2 r2]. destruct (lift_site r2); cbn [fst];
+        (apply (TaskInv_end_task s); [exact HT|exact H1|exact H2]).
+    + apply (TaskInv_end_task s); [exact HT|exact H1|exact H2].
+  - cbn [fst]. apply (TaskInv_end_task s); [exact HT|reflexivity|reflexivity].
+  - exact HT.
+Qed.
+
+Lemma TaskInv_retrier_run t : forall atts s, TaskInv s -> TaskInv (fst (f_retrier_run s t atts)).
+Proof.
+  induction atts as [|a atts IH]; intros s HT; cbn [f_retrier_run]; [exact HT|].
+  destruct (negb (memN t (f_tasks s))); [exact HT|].
+  pose proof (run_attempt_same s t a) as Hs. destruct (run_attempt s t a) as [s1 r]. cbn [fst] in Hs.
+  pose proof (TaskInv_task_step s1 t r (at_more a) (TaskInv_same_tasks _ _ Hs HT)) as H2.
+  destruct (task_step s1 t r (at_more a)) as [s2 o]. cbn [fst] in H2.
+  destruct o; try exact H2. destruct atts; [exact H2|]. apply IH. exact H2.
+Qed.
+
+Lemma TaskInv_restart s d : TaskInv (restart_with s d).
+Proof. split; [constructor|]. intros t []. Qed.
+
+Lemma TaskInv_init : TaskInv f_init.
+Proof. split; [constructor|]. intros t []. Qed.
+
+Lemma TaskInv_fstep s o : TaskInv s -> TaskInv (fst (fstep s o)).
+Proof.
+  intros HT. destruct o; cbn [fstep].
+  - destruct (f_register_mgr s t t rp) as [A B]. apply (TaskInv_same s); [exact A| |exact HT]. intros k. unfold rstat. rewrite B. reflexivity.
+  - destruct (f_revocation_mgr s l order replies) as [A B]. apply (TaskInv_same s); [exact A| |exact HT]. intros k. unfold rstat. rewrite B. reflexivity.
+  - apply TaskInv_manager_tick, HT.
+  - pose proof (TaskInv_retrier_run t atts s HT) as H. destruct (f_retrier_run s t atts). exact H.
+  - destruct (f_manual_retry_mgr s t) as [A B]. apply (TaskInv_same s); [exact A| |exact HT]. intros k. unfold rstat. rewrite B. reflexivity.
+  - destruct (f_abandon_mgr s t) as [A B]. apply (TaskInv_same s); [exact A| |exact HT]. intros k. unfold rstat. rewrite B. reflexivity.
+  - apply TaskInv_restart.
+Qed.
+
+Lemma TaskInv_frun ops : forall s, TaskInv s -> TaskInv (frun s ops).
+Proof. induction ops as [|o ops IH]; intros s HT; cbn; [exact HT|]. apply IH, TaskInv_fstep, HT. Qed.
+
+(* C13 single_retrier *)
+Theorem single_retrier ops :
+  let s := frun f_init ops in
+  NoDup (f_tasks s) /\ (forall t, In t (f_tasks s) -> rstat s t = Some RRunning).
+Proof. exact (TaskInv_frun ops f_init TaskInv_init). Qed.
+
+(* ... and the manager only ever starts a retrier that is Stopped: every tower `started` by a sweep had a Stopped
+   retrier (with data) in the state the sweep ran on, and no live task *)
+Lemma sweep_started_stopped elapsed : forall keys s started woke s' started' woke' o,
+  sweep s keys elapsed started woke = (s', started', woke', o) ->
+  (forall t, In t started -> In t keys -> False) -> NoDup keys ->
+  forall t, In t started' -> In t started \/ (In t keys /\ exists r, aget (f_mgr s) t = Some r /\ should_start r = true).
+Proof.
+  induction keys as [|k keys IH]; intros s started woke s' started' woke' o H Hd Hn t Ht; cbn in H.
+  - inversion H. subst. left. exact Ht.
+  - inversion Hn as [|? ? Hk Hn']. subst.
+    assert (Hother : forall s1 r1, (forall x, x <> k -> aget (f_mgr s1) x = aget (f_mgr s) x) ->
+              forall started1 woke1, sweep s1 keys elapsed started1 woke1 = (s', started', woke', o) ->
+              (forall x, In x started1 -> In x started \/ (x = k /\ aget (f_mgr s) k = Some r1 /\ should_start r1 = true)) ->
+              In t started \/ (In t (k :: keys) /\ exists r, aget (f_mgr s) t = Some r /\ should_start r = true)).
+    { intros s1 r1 Hsame started1 woke1 Hsw Hst.
+      assert (Hd1 : forall x, In x started1 -> In x keys -> False).
+      { intros x Hx Hxk. destruct (Hst x Hx) as [Hx'|[-> _]]; [apply (Hd x Hx'); right; exact Hxk|contradiction]. }
+      destruct (IH s1 started1 woke1 s' started' woke' o Hsw Hd1 Hn' t Ht) as [Hin|[Hin [r [Hr Hss]]]].
+      - destruct (Hst t Hin) as [Hx|[-> [Hr Hss]]]; [left; exact Hx|]. right. split; [left; reflexivity|]. exists r1. split; assumption.
+      - right. split; [right; exact Hin|]. exists r. split; [|exact Hss]. rewrite <- Hsame; [exact Hr|]. intros ->. contradiction. }
+    destruct (aget (f_mgr s) k) as [r|] eqn:E.
+    + destruct (should_start r) eqn:Ess.
+      * destruct (retrier_start s k r) as [s1 [site|]] eqn:Es.
+        -- inversion H. subst. left. exact Ht.
+        -- eapply (Hother s1 r); [|exact H|].
+           ++ intros x Hx. unfold retrier_start in Es. destruct (aget (c_towers (f_c s)) k); [|discriminate].
+              inversion Es. cbn. apply aget_aset_other. exact Hx.
+           ++ intros x Hx. apply in_app_or in Hx. destruct Hx as [Hx|[<-|[]]]; [left; exact Hx|]. right. repeat split; assumption.
+      * destruct (is_idle (r_status r) && memN k elapsed).
+        -- eapply (Hother (wake s k r) r); [|exact H|intros x Hx; left; exact Hx].
+           intros x Hx. unfold wake. cbn. apply aget_aset_other. exact Hx.
+        -- eapply (Hother s r); [reflexivity|exact H|intros x Hx; left; exact Hx].
+    + eapply (Hother s (mk_retrier RStopped [])); [reflexivity|exact H|intros x Hx; left; exact Hx].
+Qed.
